@@ -19,7 +19,7 @@ import re
 import tomllib
 
 import facts as FX
-from facts import tokens, fmt, walk, op_place, op_const, const_int, short
+from facts import tokens, fmt, walk, op_place, op_const, const_int, short, strip_sites
 import templates as T
 
 TABLE = os.path.join(os.path.dirname(os.path.dirname(os.path.abspath(__file__))), "tables", "panic_guards.toml")
@@ -1273,10 +1273,20 @@ def check_entries(F, R, pid, entries, cfg, stop=None, classes=None, label=None):
                                     % (s.sig, s.fn, e["guard"], _entry_of(F, parent, f)), s.span.loc,
                                     {"call_path": F.call_path(parent, f), "site": s.sig, "expected_guard": e["guard"]})
                 else:
+                    inv = e.get("invariant")
+                    if inv:
+                        # a reviewed entry backed by a named invariant that is re-verified on the current tree
+                        iok, iwhy = check_invariant(F, inv)
+                        if not iok:
+                            R.ob("PANIC", s.key(), False, True)
+                            R.violation("PANIC", s.key() + "/invariant-" + inv,
+                                        "panic site %s in %s relies on the invariant `%s`, which does not hold on this tree: %s"
+                                        % (s.sig, s.fn, inv, iwhy), s.span.loc, {"site": s.sig, "invariant": inv, "why": iwhy})
+                            continue
                     R.ob("PANIC", s.key(), True, True,
                          {"rule": "PANIC", "site": s.sig, "fn": s.fn, "loc": s.span.loc, "class": s.cls,
-                          "discharge": "reviewed invariant: " + e.get("reviewed", "")})
-                    R.reviewed.append({"fn": s.fn, "site": s.sig, "reason": e.get("reviewed", "")})
+                          "discharge": ("invariant %s verified; " % inv if inv else "reviewed invariant: ") + e.get("reviewed", "")})
+                    R.reviewed.append({"fn": s.fn, "site": s.sig, "reason": e.get("reviewed", ""), "invariant_verified": inv})
                 continue
             R.ob("PANIC", s.key(), False, True)
             undis.append(s)
@@ -1289,6 +1299,89 @@ def check_entries(F, R, pid, entries, cfg, stop=None, classes=None, label=None):
         "entries": len(entries), "reachable_functions": len(fns), "sites": n_sites, "by_class": by_class,
         "table_entries_used": len(used_entries)}
     return undis
+
+
+# ---- named invariants behind reviewed table entries (entry key `invariant = "<name>"`)
+INVARIANT_CHECKS = {}
+_inv_memo = {}
+
+
+def invariant(name):
+    def deco(fn):
+        INVARIANT_CHECKS[name] = fn
+        return fn
+    return deco
+
+
+def check_invariant(F, name):
+    key = (id(F), name)
+    if key not in _inv_memo:
+        fn = INVARIANT_CHECKS.get(name)
+        _inv_memo[key] = fn(F) if fn else (False, "no checker registered for invariant %s" % name)
+    return _inv_memo[key]
+
+
+SEGITER_NEW = "sciparse::proto::dataplane_path::standard::view::SegmentIterator::<'_>::new"
+
+
+@invariant("segiter-leading-nonzero")
+def _inv_segiter(F):
+    """SegmentIterator::new sets total_segments to the length of the *leading run of non-zero* segment lengths, so that
+    next() — which yields segment i for i < total_segments with segment_lengths[i] hop fields — never yields an empty
+    segment.  Accepted idioms: (a) counting loop over the segment lengths that leaves the loop on `len == 0` before the
+    increment; (b) iter().take_while(|l| l != 0).count() / position(|l| l == 0)."""
+    cands = [p for p in F.fns if re.search(r"view::SegmentIterator(::<[^>]*>)?::new$", p) and F.has_body(p)]
+    if len(cands) != 1:
+        return False, "SegmentIterator::new not found (%d candidates)" % len(cands)
+    b = F.body(cands[0])
+    ro = b.local_origin(0)
+    aggs = [n for n in walk(ro) if n[0] == "agg" and n[1][0] == "adt" and n[1][1].endswith("::SegmentIterator")]
+    if not aggs:
+        return False, "constructor aggregate not found"
+    adt = F.adts.get(aggs[0][1][1])
+    names = [f[0] for f in adt["variants"][0][2]] if adt else []
+    if "total_segments" not in names:
+        return False, "field total_segments not found"
+    ts = strip_casts(strip_sites(aggs[0][2][names.index("total_segments")]))
+    # (b) iterator idioms
+    if ts[0] == "call" and ts[1].endswith("::count") and any(n[0] == "call" and n[1].endswith("::take_while") for n in walk(ts)):
+        cl = [n[1][1] for n in walk(ts) if n[0] == "agg" and isinstance(n[1], tuple) and len(n[1]) > 1 and "{closure#" in str(n[1][1])]
+        for q in cl:
+            qo = strip_sites(F.body(q).local_origin(0)) if F.has_body(q) else ("top",)
+            if qo[0] == "bin" and qo[1] == "Ne" and const_eval(strip_casts(qo[3])) == 0:
+                return True, "take_while(len != 0).count()"
+        return False, "take_while predicate is not `len != 0`"
+    # (a) counting loop: total = phi(0, loop + 1) and the increment is only reachable through the false edge of `len == 0`
+    alts = list(ts[1]) if ts[0] == "phi" else [ts]
+    alts = [strip_casts(a) for a in alts if isinstance(a, tuple)]
+    def is_inc(a):
+        if a[0] == "field" and a[2] == "0" and a[1][0] == "bin":
+            a = ("bin", a[1][1].replace("WithOverflow", ""), a[1][2], a[1][3])
+        return a[0] == "bin" and a[1].startswith("Add") and const_eval(a[3]) == 1 and any(n[0] == "loop" for n in walk(a[2]))
+    if not (any(const_eval(a) == 0 for a in alts) and any(is_inc(a) for a in alts) and len(alts) == 2):
+        return False, "total_segments is not a count starting at 0 and incremented by 1: %s" % fmt(ts, 120)
+    # find the increment statement block(s) and require a dominating guard `elem != 0` with elem from the segment-length array iteration
+    inc_bbs = []
+    for bb in sorted(b.live_blocks()):
+        for st in b.stmts(bb):
+            if st[0] == "=" and st[2][0] == "bin" and st[2][1].startswith("Add") and const_int(st[2][3]) == 1:
+                o = b.origin(st[2][2])
+                inc_bbs.append(bb)
+    inc_bbs = [bb for bb in inc_bbs]
+    if not inc_bbs:
+        return False, "increment statement not found"
+    for bb in inc_bbs:
+        good = False
+        for g, cond, pol in _cmp_guards(b, bb):
+            nn = _norm_cmp(cond, pol)
+            if not nn:
+                continue
+            op, x, y = nn
+            if op == "Ne" and const_eval(strip_casts(strip_sites(y))) == 0 and any(n[0] == "call" and n[1].endswith("Iterator>::next") for n in walk(x)):
+                good = True
+        if good:
+            return True, "counting loop guarded by `len != 0` (break at the first zero length)"
+    return False, "the count is incremented without a dominating `len != 0` test on the iterated segment length (zero-length segments are counted)"
 
 
 def _entry_of(F, parent, f):
